@@ -22,6 +22,13 @@ var hostileTexts = [][]byte{
 
 // c09ProcProgram: a terminating transform or predicate applied to arbitrary match text.
 func c09ProcProgram(rng *gen.Rng, i int) string {
+	s, _ := c09ProcProgram2(rng, i)
+	return s
+}
+
+// c09ProcProgram2 also says whether the program may legitimately be rejected (it holds a statement that need not be
+// well typed: whatever Compile lets through must run).
+func c09ProcProgram2(rng *gen.Rng, i int) (string, bool) {
 	transform := (i/4)%2 == 0 // i is always 3 mod 4 here
 	pg := newProcGen(rng)
 	ss := pg.withInits(pg.stmtList(2, 1+rng.Intn(3), transform, false, true))
@@ -51,6 +58,12 @@ func c09ProcProgram(rng *gen.Rng, i int) string {
 			ss = append(ss, proc.SReturn{X: proc.EBin{Op: ">=", L: e, R: proc.ENum{V: 0}}})
 		}
 	}
+	mayReject := false
+	if rng.Chance(1, 4) {
+		// a debug statement over an arbitrary (often ill-typed) expression: rejected at compile time or harmless at run time
+		ss = append([]proc.Stmt{proc.SDebug{X: pg.anyExpr(2)}}, ss...)
+		mayReject = true
+	}
 	body := proc.RenderStmts(ss, rng.Bool())
 	pats := []string{"at least 1 digit", "(maybe digit) = cap letter", "any", "at least 0 'a' 'b'", "whole word", "(at most 2 digit) = cap ','"}
 	pat := pats[rng.Intn(len(pats))]
@@ -70,9 +83,9 @@ func c09ProcProgram(rng *gen.Rng, i int) string {
 				with = "f f '|' value"
 			}
 		}
-		return "set f to transform " + body + " end\n" + extra + "replace all " + pat + " with " + with
+		return "set f to transform " + body + " end\n" + extra + "replace all " + pat + " with " + with, mayReject
 	}
-	return "set p to pattern " + pat + " begin " + body + " end\nfind all p"
+	return "set p to pattern " + pat + " begin " + body + " end\nfind all p", mayReject
 }
 
 func C09(r *drv.Run) {
@@ -162,9 +175,10 @@ func C09(r *drv.Run) {
 			src = mutants[i-nprog]
 			texts = hostileTexts
 		case i%4 == 3:
-			src = c09ProcProgram(rng, i)
+			var mayReject bool
+			src, mayReject = c09ProcProgram2(rng, i)
 			texts = [][]byte{{}, []byte("0"), []byte("12"), []byte("a"), []byte("7a"), []byte("ab 3,"), []byte("10 0 5"), []byte(",a,"), []byte("\xc3")}
-			generated = true
+			generated = !mayReject
 		default:
 			p := gen.AnyProgram(rng, i)
 			src = gen.RenderProgram(p)
